@@ -30,6 +30,8 @@ Definition holds (c : case) : bool :=
   else
     spaced3 m &&
     match m with t :: _ => t =? c_t0 c | [] => false end &&
-    forallb (fun t => (c_horizon c <=? t + 3000000000) || served m t) (triggers c).
+    forallb (fun t => (c_horizon c <=? t + 3000000000) || served m t) (triggers c) &&
+    (* ... and nothing else: every all-nodes RA after the initial one answers some trigger of the last 3 s *)
+    forallb (fun s => (s =? c_t0 c) || existsb (fun t => (t <=? s) && (s <=? t + 3000000000)) (triggers c)) m.
 
 Definition known (c : case) : N := 0%N.
